@@ -352,12 +352,21 @@ func knownClassOf(u *MURL, sh shape) string {
 // mayReject marks accepted-by-the-model inputs that a repaired parser may
 // legitimately refuse: an explicit port field of value zero (zero is not a
 // port; it is also the "no port" value of the URL message) and a Docker URL
-// with an explicitly empty user ("docker://@...").
+// with an explicitly empty user ("docker://@..."). Since the C36 repair the
+// parser also refuses SSH users / hosts and Docker containers that begin with
+// '-' (they would be read as options by ssh, scp and docker); which strings
+// are accepted is not part of C38's statement.
 func mayReject(u *MURL, sh shape) bool {
 	switch sh.proto {
 	case "ssh":
+		if strings.HasPrefix(u.Host, "-") || strings.HasPrefix(u.User, "-") {
+			return true
+		}
 		return sh.portField && u.Port == 0
 	case "docker":
+		if strings.HasPrefix(u.Host, "-") {
+			return true
+		}
 		return strings.HasPrefix(sh.dockerHead, "@")
 	}
 	return false
